@@ -1,5 +1,5 @@
 \* pathdb, the three switches one at a time FALSE (the check rewrites one of them): TLC refutes
-\* CapKeepsBranch (FixDropByChain), OpensAfterRestart (FixDiskRoot), ReadsRight (FixJournalStale).
+\* CapKeepsBranch (FixDropByChain), OpensAfterRestart RestartServesJournaled (FixDiskRoot), ReadsRight (FixJournalStale).
 \* Small on purpose (height 1: 2 keys, 3 paths per trie): the shortest refutations need 3 updates and 2 restarts
 CONSTANTS
   H = 1
@@ -17,5 +17,5 @@ CONSTANTS
 INIT Init
 NEXT NextCompact
 VIEW view
-INVARIANTS ReadsRight StaleIsError DiskIsOneState FlushNeverRefused OpensAfterRestart CommitDurable CapKeepsBranch CleanCoherent
+INVARIANTS ReadsRight StaleIsError DiskIsOneState FlushNeverRefused OpensAfterRestart RestartServesJournaled CommitDurable CapKeepsBranch CleanCoherent
 CHECK_DEADLOCK FALSE
